@@ -4,6 +4,7 @@ import (
 	"fmt"
 	"go/constant"
 	"go/types"
+	"regexp"
 	"strings"
 
 	"golang.org/x/tools/go/ssa"
@@ -33,6 +34,7 @@ type specEnv struct {
 	noUnfold bool
 	structArg map[string]*Loc // struct arguments (by value) and the caller's location they were loaded from
 	visited Term // ghost set of keys already visited by the enclosing map range
+	visitedSort string // sort of the ranged map
 	bound   map[string]string // bound variable (SMT name) -> sort, for lemmas emitted under quantifiers
 }
 
@@ -54,6 +56,8 @@ func (e *enc) memGet(m map[string]Term, key string) Term {
 	}
 	return e.mem[key]
 }
+
+var boundNameRe = regexp.MustCompile(`(^|[^A-Za-z0-9_])[aq]_[A-Za-z]`)
 
 var intTy = types.Typ[types.Int]
 var boolTy = types.Typ[types.Bool]
@@ -744,6 +748,12 @@ func (e *enc) specCall(env *specEnv, n *SCall) (tval, error) {
 			return tval{}, err
 		}
 		return bl(fmt.Sprintf("(select %s %s)", env.visited, as[0].t))
+	case "NVisited":
+		// number of keys already visited by the enclosing map range
+		if env.visited == "" || env.visitedSort == "" {
+			return tval{}, fmt.Errorf("NVisited() is only available in invariants of a loop that ranges over a map")
+		}
+		return tval{fmt.Sprintf("(Card_%s %s)", env.visitedSort, env.visited), intTy, "Int"}, nil
 	case "GetText", "GetLine", "GetColumn", "GetTokenType", "GetChildCount":
 		as, err := args()
 		if err != nil {
@@ -811,6 +821,25 @@ func (e *enc) specCall(env *specEnv, n *SCall) (tval, error) {
 			return tval{}, err
 		}
 		return tval{fmt.Sprintf("(ite (str.contains %[1]s %[2]s) (str.substr %[1]s (+ (str.indexof %[1]s %[2]s 0) (str.len %[2]s)) (- (str.len %[1]s) (+ (str.indexof %[1]s %[2]s 0) (str.len %[2]s)))) \"\")", as[0].t, as[1].t), strTy, "String"}, nil
+	case "PathBase", "PathExt", "TrimSuffix":
+		as, err := args()
+		if err != nil {
+			return tval{}, err
+		}
+		if n.Fun == "TrimSuffix" {
+			return tval{fmt.Sprintf("(ite (str.suffixof %[2]s %[1]s) (str.substr %[1]s 0 (- (str.len %[1]s) (str.len %[2]s))) %[1]s)", as[0].t, as[1].t), strTy, "String"}, nil
+		}
+		ground := !boundNameRe.MatchString(as[0].t)
+		if n.Fun == "PathBase" {
+			if ground {
+				return tval{e.pathBase(as[0].t), strTy, "String"}, nil
+			}
+			return tval{fmt.Sprintf("(%s %s)", e.uf("PathBase", []string{"String"}, "String"), as[0].t), strTy, "String"}, nil
+		}
+		if ground {
+			return tval{e.pathExt(as[0].t), strTy, "String"}, nil
+		}
+		return tval{fmt.Sprintf("(%s %s)", e.uf("PathExt", []string{"String"}, "String"), as[0].t), strTy, "String"}, nil
 	case "TrimSpace", "TrimLeft":
 		as, err := args()
 		if err != nil {
